@@ -73,6 +73,9 @@ def programs(draw):
             spec['sub'] = draw(gen.sub_spec())
             if draw(st.integers(0, 9)) == 0:
                 spec['handler_raises'] = True
+            elif k == 'st' and draw(st.integers(0, 7)) == 0:
+                # the publisher is obtained now, subscribed to later - or dropped (cancelled) without ever being subscribed
+                spec['late_subscribe'] = True
         if k == 'ch':
             spec['rsrc'] = draw(st.one_of(st.none(), any_src(fr_req)))
             spec['rsub'] = draw(st.one_of(st.none(), gen.sub_spec(), gen.sub_spec()))
@@ -85,6 +88,8 @@ def programs(draw):
         st.tuples(st.just('end'), st.integers(0, 11), st.sampled_from(['resp', 'req'])),
         st.tuples(st.just('resolve'), st.integers(0, 11)),
         st.tuples(st.just('cancel'), st.integers(0, 11), st.sampled_from(['resp', 'resp', 'req'])),
+        st.tuples(st.just('subscribe'), st.integers(0, 11)),
+        st.tuples(st.just('abandon'), st.integers(0, 11)),
         st.tuples(st.just('tick'), st.integers(1, 4)),
         st.tuples(st.just('adv'), st.integers(1, 20)),
         st.tuples(st.just('deliver'), st.sampled_from(['c', 's']), st.one_of(st.none(), st.integers(1, 80))),
@@ -122,6 +127,10 @@ def programs(draw):
             inter[i]['src'] = dict(inter[i]['src'], els=[[fs * draw(st.integers(4, 9)), 0]] + list(inter[i]['src']['els'])[:2])
             ops += [['regime', 'pumped'], ['adv', 30], ['emit', i, 'resp', 1], ['adv', draw(st.integers(1, 6))], ['cancel', i, 'resp'],
                     ['adv', 40], ['tick', 3]]
+    for i, sp in enumerate(inter):
+        if sp.get('late_subscribe'):
+            # every cold publisher is eventually subscribed to or dropped
+            ops += [[draw(st.sampled_from(['abandon', 'abandon', 'subscribe'])), i], ['tick', 3]]
     return {'cfg': cfg, 'inter': inter, 'ops': ops}
 
 
